@@ -30,7 +30,7 @@ RULE = (
     "explicit or default output/pop aggregation methods; optional time bins (width / edges / 'all', integrate / average / default), interpolation years; "
     "result cascades (framework by name/index/None, ad hoc lists and nested dicts) and data cascades (stages over databook quantities, usually sharing "
     "constituents) with years; 0-2 (quick) plot/export calls.  Inside check() every ordered subset of the output list and of the population list is "
-    "requested (exhaustive over that finite space).  non-trivial = (>=2 populations and the request mixes number and dimensionless outputs) or a "
+    "requested (exhaustive over that finite space), plus pops='total' and the same request for two results in one call (both orders).  non-trivial = (>=2 populations and the request mixes number and dimensionless outputs) or a "
     "data cascade whose stages share constituents; distinct = distinct case hash"
 )
 ASSUMPTIONS = [
@@ -41,7 +41,7 @@ ASSUMPTIONS = [
     "exceptions raised inside plot_* / export_* calls are counted (labels) but are not violations: only the Result digest is asserted around them",
     "time-aggregated values are compared between requests (1e-12) and bounded by the interpolated own series; exact quadrature is not asserted",
 ]
-BUDGET = {"quick": 800, "thorough": 24000}
+BUDGET = {"quick": 1600, "thorough": 48000}
 TIME_CAP = {"quick": 55, "thorough": 1100}
 PROFILE = {"max_pops": 3, "p_timed": 0.2, "p_junction": 0.3, "max_steps": 12, "extreme": 0.0, "characs": True, "p_transfer": 0.5}
 LIBS = ["hypertension", "hiv", "diabetes", "tb_simple", "udt"]
@@ -401,10 +401,12 @@ class Ctx:
         return e
 
     # ---- comparison of a PlotData against the own values
-    def compare(self, d, outs, pitems, what):
+    def compare(self, d, outs, pitems, what, result=None):
         want = {(_key(p), _key(o)): (p, o) for p in pitems for o in outs}
         seen = set()
         for s in d.series:
+            if result is not None and s.result != result:
+                continue
             k = (s.pop, s.output)
             if k not in want or k in seen:
                 raise Violation(ID, "series/unexpected-or-duplicate", "%s: series %r for request outputs=%r pops=%r" % (what, k, outs, pitems))
@@ -431,8 +433,18 @@ class Ctx:
             defaulted = (self.oagg is None and any(isinstance(x, dict) and not isinstance(x[_key(x)], str) for x in outs)) or (self.pagg is None and any(isinstance(x, dict) for x in pitems))
             bucket = "order-dependence/default-aggregation" if defaulted else "order-dependence/other"
             raise Violation(ID, bucket, ctx + "; the singleton request [%r] x [%r] reports %r" % (o, p, float(single.vals[idx]) if isinstance(idx, int) else None))
-        # the singleton is wrong as well: a value defect
+        # the singleton is wrong as well: a value defect; blame the innermost part that is already wrong on its own
         m, level = e.get("method"), e.get("level")
+        if e.get("parts") is not None and not what.endswith("(part)"):
+            inner = [(q, o) for q in p[_key(p)]] if level == "p" else [(p, x) for x in o[_key(o)]]
+            for q, x in inner:
+                if (q, x) == (p, o) or isinstance(q, dict):
+                    continue
+                sq = self.plotdata([x], [q]).series[0]
+                eq = self.expected(q, x)
+                iq = H.mismatch(sq.vals, eq["vals"], eq["scale"], RTOL, eq["mask"])
+                if iq is not None:
+                    self.classify(sq, q, x, eq, iq, [x], [q], what + " -> part" if isinstance(x, dict) else what + " (part)")
         if isinstance(idx1, int) and m == "weighted" and level == "p" and np.isnan(single.vals[idx1]) and e["vals"][idx1] == 0:
             raise Violation(ID, "weighted/zero-numerator-nan", ctx + "; population sizes %r" % ([float(w[idx1]) for w in e["weights"]],))
         if m is None:
@@ -516,6 +528,15 @@ def _check_lists(c):
     tot = {"Total": [p.name for p in c.res.model.pops]}
     d = c.at.PlotData(c.res, outputs=outs, pops="total", output_aggregation=c.oagg, pop_aggregation=saved)
     c.compare(d, outs, [tot], "pops='total'")
+    # the same request for two results at once (a deep copy under another name), in both orders
+    import sciris as sc
+
+    other = sc.dcp(c.res)
+    other.name = "other run"
+    for pair in ([c.res, other], [other, c.res]):
+        d = c.at.PlotData(pair, outputs=outs, pops=c.pop_arg, output_aggregation=c.oagg, pop_aggregation=c.pagg)
+        for nm in (c.res.name, other.name):
+            c.compare(d, outs, pitems, "two results in one call", result=nm)
     for p in pitems:
         for o in outs:
             c.bounds(p, o)
